@@ -185,6 +185,19 @@ Fixpoint walk_params (st : pstate) (n : node) (acc : pacc) : result pacc :=
 Definition find_parameters (root : node) : result (list pref) :=
   do a <- walk_params (mkPS Nil Nil Nil Nil) root ([], []); Ok (fst a).
 
+(** shape of the trees findParameters can walk without a nil dereference: checked on every tree the parsers
+    return (Judge/J03.v), hypothesis of C18_find_parameters_partial *)
+(** the INSERT special case of paramSearch.Visit dereferences both lists of the source SELECT *)
+Definition insert_ok (n : node) : bool :=
+  if is_kind "InsertStmt" n && is_kind "SelectStmt" (kid "SelectStmt" n)
+  then match items_opt (kid "TargetList" (kid "SelectStmt" n)), items_opt (kid "ValuesLists" (kid "SelectStmt" n)) with
+       | Some _, Some _ => true
+       | _, _ => false
+       end
+  else true.
+Definition inserts_ok (root : node) : bool := forallb insert_ok (preorder root).
+
+
 Definition ref_number (r : pref) : Z := int_of "Number" (pr_ref r).
 
 (** parse.go uniqueParamRefs *)
